@@ -5,6 +5,5 @@ func stub(name string) string {
 }
 
 func genPool() string    { return stub("Pool") }
-func genSelect() string  { return stub("Select") }
 func genPreds() string   { return stub("Preds") }
 func genSites() string   { return stub("Sites") }
